@@ -319,6 +319,23 @@ B("B31 popularity: dedup dropped", (COMP, """        if res not in results:
     sat_profile = profile.as_sat_profile(sat_class)
     result_support"""))
 B("B32 popularity: indifferent voters support only their first best outcome", (COMP, "            elif s == max_sat:\n                arg_max_sat.append(i)\n", ""))
+# ---------------- edits that leave the fragment / the aliasing discipline: must fail closed ----------------
+B("B33 increase: the outcome of the rule is mutated in place", (EXH, "            if exhaustive_stop and instance.is_exhaustive(outcome):\n                return outcome\n",
+  "            if exhaustive_stop and instance.is_exhaustive(outcome):\n                outcome.extend([])\n                return outcome\n"))
+B("B34 increase: exceptions of the rule swallowed (try/except)", (EXH, "        outcome = rule(current_instance, profile, **rule_params)\n",
+  "        try:\n            outcome = rule(current_instance, profile, **rule_params)\n        except ValueError:\n            return previous_outcome\n"))
+B("B35 swc: the caller's initial allocation is appended to", (COMP, """    if initial_budget_allocation is not None:
+        budget_allocation = BudgetAllocation(initial_budget_allocation)
+    else:
+        budget_allocation = BudgetAllocation()
+    results = []""", """    if initial_budget_allocation is not None:
+        budget_allocation = initial_budget_allocation
+        budget_allocation.extend([])
+    else:
+        budget_allocation = BudgetAllocation()
+    results = []"""))
+B("B36 completion: a module-level helper is called (outside the fragment)", (EXH, "    budget_allocations = []\n    res = []\n",
+  "    budget_allocations = sorted([])\n    res = []\n"))
 
 
 def sh(cmd, **kw):
@@ -351,6 +368,12 @@ def main():
         checks = r.returncode == 0
         verdict = ("ok" if checks else "FALSE ALARM") if kind == "rewrite" else ("caught" if not checks else "MISSED")
         first = ""
+        failed = [l.split(":")[0] for l in r.stdout.split("\n") if l.endswith(": FAILS")]
+        if kind == "break":
+            # an edit of one file must not take the other property's theorems down with it
+            want = "C09gen" if edits[0][0] == EXH else "C19gen"
+            if failed and failed != [want]:
+                verdict += "+" + ",".join(failed)
         if not checks:
             lines = [l for l in r.stdout.split("\n") if l.startswith("File ") or "Untranslated" in l or l.startswith("Error")]
             first = " | ".join(l.strip()[:110] for l in lines[:3])
